@@ -15,10 +15,11 @@ Per run, for property CNN (meta/CNN.json says which harness command / Props file
 import sys, os, json, subprocess, time, hashlib, re, fcntl, argparse, glob, shutil
 from concurrent.futures import ThreadPoolExecutor
 
-V = '/verif'
+V = os.environ.get('VERIF_ROOT', '/verif')
+REPO = os.environ.get('VERIF_REPO', '/repo')
 COQ = V + '/coq'
 BUILD = V + '/.build'
-ENV = dict(os.environ, GOFLAGS='-mod=mod', GOPROXY='off', GOSUMDB='off', GOTOOLCHAIN='local')
+ENV = dict(os.environ, GOFLAGS='-mod=mod', GOPROXY='off', GOSUMDB='off', GOTOOLCHAIN='local', VERIF_REPO=REPO, VERIF_ROOT=V)
 
 
 def sh(cmd, cwd=None, timeout=None, env=None):
@@ -62,7 +63,7 @@ def coq_project():
 
 def build_harness(pkg):
     if not os.path.exists(V + '/harness/go.sum'):
-        shutil.copy('/repo/go.sum', V + '/harness/go.sum')
+        shutil.copy(REPO + '/go.sum', V + '/harness/go.sum')
     rc, out, dt = sh(['go', 'build', '-tags', 'verif', '-o', f'{BUILD}/vh-{pkg}', f'./cmd/{pkg}'], cwd=V + '/harness', timeout=1500)
     return rc, out, dt
 
@@ -139,7 +140,7 @@ def main():
             if rc != 0:
                 broken.append({'kind': 'harness-build', 'what': f'the correspondence harness cmd/{pkg} no longer builds against /repo', 'detail': out[-3000:]})
                 continue
-            rc, out, dt = sh([f'{BUILD}/vh-{pkg}', 'gen', '--repo', '/repo', '--out', COQ + '/Gen'], timeout=600)
+            rc, out, dt = sh([f'{BUILD}/vh-{pkg}', 'gen', '--repo', REPO, '--out', COQ + '/Gen'], timeout=600)
             if rc != 0:
                 broken.append({'kind': 'translator', 'what': f'vh-{pkg} gen failed', 'detail': out[-3000:]})
         coq_project()
